@@ -226,6 +226,65 @@ impl C02Check {
 // ---------------------------------------------------------------------------------------------
 // random deeper expressions
 
+/// one binary operator per (level, associativity), plus both separators, the list space and the comma
+pub fn context_ops() -> Vec<&'static str> {
+    let mut v: Vec<&'static str> = optable::level_representatives().iter().filter(|o| matches!(o.fix, Fix::BinL | Fix::BinR)).map(|o| o.text).collect();
+    for extra in [";", "\n\n", " ", ","] {
+        if !v.contains(&extra) {
+            v.push(extra);
+        }
+    }
+    v
+}
+
+/// every nesting of one to three brackets, outermost first
+pub fn bracket_contexts() -> Vec<String> {
+    let kinds = ['(', '{', '['];
+    let mut out: Vec<String> = vec![];
+    for a in kinds {
+        out.push(a.to_string());
+        for b in kinds {
+            out.push(format!("{}{}", a, b));
+            for c in kinds {
+                out.push(format!("{}{}{}", a, b, c));
+            }
+        }
+    }
+    out
+}
+
+fn pattern_of_texts(o1: &str, o2: &str) -> String {
+    let name = |o: &str| match o {
+        " " => "list-space".to_string(),
+        "\n\n" => "blank-line".to_string(),
+        o => o.to_string(),
+    };
+    format!("{}|{}", name(o1), name(o2))
+}
+
+/// the content of the bracket node that lies `depth` brackets deep (each bracket node has its content as right child;
+/// a side-effect block hangs off the value before it)
+fn innermost_content(t: &Sx, depth: usize) -> Option<&Sx> {
+    fn find<'a>(t: &'a Sx, remaining: usize) -> Option<&'a Sx> {
+        let (d, l, r) = match t {
+            Sx::Node(d, l, r) => (d.as_str(), l, r),
+            Sx::ValNode(d, _, l, r) => (d.as_str(), l, r),
+            _ => return None,
+        };
+        if matches!(d, "Group" | "NestedExpression" | "SideEffect") {
+            let content = r.as_deref().or(l.as_deref())?;
+            return if remaining == 1 { Some(content) } else { find(content, remaining - 1) };
+        }
+        for c in [l, r].into_iter().flatten() {
+            if let Some(x) = find(c, remaining) {
+                return Some(x);
+            }
+        }
+        None
+    }
+    find(t, depth)
+}
+
 fn binary_ops() -> Vec<&'static OpInfo> {
     OPS.iter().filter(|o| matches!(o.fix, Fix::BinL | Fix::BinR)).collect()
 }
@@ -317,6 +376,10 @@ impl Check for C02Check {
             v.push(Phase::exhaustive("quads-of-level-representatives", r * r * r * r * 2).with_chunk(8192));
         }
         v.push(Phase::random("random-deep", tier.pick(150_000, 4_000_000), 96).with_min_tape(16).with_chunk(2048));
+        {
+            let b = context_ops().len() as u64;
+            v.push(Phase::exhaustive("bracket-contexts", bracket_contexts().len() as u64 * b * b).with_chunk(512));
+        }
         v
     }
     fn run(&self, tier: Tier, phase: usize, input: &Input, ctx: &mut CaseCtx) {
@@ -336,6 +399,59 @@ impl Check for C02Check {
                 let ops = [&OPS[(r / (n * n)) as usize], &OPS[((r / n) % n) as usize], &OPS[(r % n) as usize]];
                 ctx.class("triple");
                 self.run_ops(ctx, &ops, variant);
+            }
+            ("bracket-contexts", Input::Index(i)) => {
+                // brackets override the table only at their own boundary: what stands inside the innermost bracket parses
+                // exactly as it parses alone, whatever brackets lie around it (inside a plain group a separator is white
+                // space, so bodies with a separator directly inside `( )` are left out)
+                let ops = context_ops();
+                let b = ops.len() as u64;
+                let ctxs = bracket_contexts();
+                let context = &ctxs[(*i / (b * b)) as usize];
+                let (o1, o2) = (ops[((*i / b) % b) as usize], ops[(*i % b) as usize]);
+                let join = |l: &str, o: &str, r: &str| if o == " " { format!("{} {}", l, r) } else if o == "\n\n" { format!("{}\n\n{}", l, r) } else { format!("{} {} {}", l, o, r) };
+                let body = join(&join("a", o1, "b"), o2, "c");
+                let has_separator = [o1, o2].iter().any(|o| *o == ";" || *o == "\n\n");
+                if has_separator && context.ends_with('(') {
+                    ctx.class("separator-directly-in-a-plain-group-skipped");
+                    return;
+                }
+                let mut text = body.clone();
+                for kind in context.chars().rev() {
+                    text = match kind {
+                        '(' => format!("( {} )", text),
+                        '{' => format!("{{ {} }}", text),
+                        _ => format!("7 [ {} ]", text),
+                    };
+                }
+                ctx.render(|| format!("{:?}", text));
+                ctx.class("bracket-context");
+                let alone = match parse_text(&body, None) {
+                    Parsed::Tree(t) => t,
+                    Parsed::Panic(sig, msg) => {
+                        ctx.fail(sig, format!("{:?}: {}", body, msg));
+                        return;
+                    }
+                    _ => {
+                        ctx.class("body-rejected-alone");
+                        return;
+                    }
+                };
+                match parse_text(&text, None) {
+                    Parsed::Tree(t) => {
+                        ctx.nontrivial(fnv(text.as_bytes()));
+                        match innermost_content(&t, context.len()) {
+                            Some(inner) if *inner == alone => {}
+                            Some(inner) => ctx.fail(
+                                format!("bracket-context:{}:{}", context, pattern_of_texts(o1, o2)),
+                                format!("{:?} alone parses as {}, inside {:?} the same text parses as {}", body, alone, text, inner),
+                            ),
+                            None => ctx.fail(format!("bracket-context:{}:brackets-not-nested-in-tree", context), format!("{:?} parses as {}", text, t)),
+                        }
+                    }
+                    Parsed::Panic(sig, msg) => ctx.fail(sig, format!("{:?}: {}", text, msg)),
+                    _ => ctx.fail(format!("bracket-context:{}:rejected-in-context:{}", context, pattern_of_texts(o1, o2)), format!("{:?} is accepted alone, {:?} is rejected", body, text)),
+                }
             }
             ("triples-with-grouped-operand", Input::Index(i)) => {
                 let reps = optable::level_representatives();
